@@ -59,7 +59,7 @@ def is_explicit_unsupported(r, func_pattern):
             return False
     if _INTERNAL_MSG.search(r.msg):
         return False
-    if r.type in ("AttributeError", "IndexError", "KeyError", "ZeroDivisionError", "AssertionError"):
+    if r.type in ("AssertionError",):
         return False
     return re.fullmatch(func_pattern, name) is not None
 
